@@ -227,6 +227,13 @@ static inline void f32_to_stats(struct jls_statistics_s * stats, const float * d
 }
 
 static inline void stats_to_f64(double * data, struct jls_statistics_s * stats) {
+    if (0 == stats->k) {  // no sample in this window (a gap): absent, as for a window served from samples
+        data[JLS_SUMMARY_FSR_MEAN] = NAN;
+        data[JLS_SUMMARY_FSR_MIN] = NAN;
+        data[JLS_SUMMARY_FSR_MAX] = NAN;
+        data[JLS_SUMMARY_FSR_STD] = NAN;
+        return;
+    }
     data[JLS_SUMMARY_FSR_MEAN] = stats->mean;
     data[JLS_SUMMARY_FSR_MIN] = stats->min;
     data[JLS_SUMMARY_FSR_MAX] = stats->max;
